@@ -1,5 +1,5 @@
 """C02 — Results equal the EN ISO 52000-1 balance equations evaluated independently"""
-from .. import epcheck, oracles
+from .. import tablecheck, epcheck, oracles
 
 THEOREMS = ["C02_flows", "C02_structure", "C02_weighted", "C02_service_share", "C02_cogeneration_factor",
             "C02_building", "C02_golden"]
@@ -23,7 +23,7 @@ def nontrivial(ep):
 def run(tier, seed):
     return epcheck.run("C02", tier, seed, THEOREMS, select, oracle, nontrivial,
                        n_model=96 if tier == "quick" else 1200, n_oracle=500 if tier == "quick" else 5000,
-                       disagreement_is_violation=True,
+                       disagreement_is_violation=True, extra_stage=tablecheck.stage,
                        level_note="the model is proved equal to the flat specification Spec/Iso52000.v and reproduces "
                                   "ISO/TR 52000-2 J1-J9 (Golden.v); every numeric field of EnergyPerformance is compared "
                                   "with the model; a disagreement is reported as a violation with the (shrunk) input")
